@@ -15,8 +15,8 @@ from . import core
 
 PROP = "C03"
 BATCH = 512
-BUDGET_S = {"quick": 150, "thorough": 1800}
-MAX_RUNS = {"quick": 1200, "thorough": 10**9}
+BUDGET_S = {"quick": 130, "thorough": 1800}
+MAX_RUNS = {"quick": 700, "thorough": 10**9}
 ENV0 = {"hashseed": 0, "cache": 1000}
 ENVS = [ENV0, {"hashseed": 1, "cache": 1000}, {"hashseed": 7, "cache": 25}, {"hashseed": 42, "cache": 1000}]
 REL_EQ = 1e-11
@@ -225,6 +225,13 @@ def generate(seed: int, run: int, tier: str) -> dict:
             ops.append({"op": "jump", "prefix": "QTY", "to": _boundary(rng)})
     if rng.random() < 0.3:
         ops.append({"op": "clear_cache"})
+    if rng.random() < 0.15:
+        # part of the history happens in another thread of the same process
+        for op in ops:
+            if op["op"] in ("import", "create") and rng.random() < 0.5:
+                op["thread"] = True
+        if not any(op.get("thread") for op in ops):
+            ops.insert(0, {"op": "create", "kind": rng.choice(["Symbol", "Quantity", "Function"]), "k": rng.choice([1, 3, 30]), "thread": True})
     order = list(targets)
     rng.shuffle(order)
     for t in order:
@@ -263,9 +270,11 @@ def systematic_jobs(tier: str, seed: int, ctx) -> list[dict]:
         deps = closure_deps(m)
         pre = [{"op": "import", "m": d} for d in deps]
         # three digit-boundary placements inside the module's *own* allocation
-        places = [(999, 9, 99), (1004, 99, 999), (99997, 999, 9998)]
+        # the module's own first symbol is SYM<to+1>: 999..996 put the 999/1000 boundary after its
+        # 0th..3rd own symbol, 1004 makes all its names sort before the shared ones, 99997 after
+        places = [(999, 9, 99), (998, 8, 98), (997, 7, 998), (996, 99, 999), (1004, 98, 97), (99997, 999, 9998)]
         if tier == "thorough":
-            places += [(996, 8, 9), (1999, 10, 100), (9996, 97, 9999), (299, 19, 29), (99, 1, 999996), (19999, 9, 1999)]
+            places += [(1000 - j, 10 - min(j, 9), 100 - j) for j in range(5, 13)] + [(10000 - j, 100 - j, 1000 - j) for j in range(1, 9)] + [(1999, 10, 100), (299, 19, 29), (99, 1, 999996), (19999, 9, 1999)]
         for v, (to_sym, to_fun, to_qty) in enumerate(places):
             ops = list(pre) + [{"op": "jump", "prefix": "SYM", "to": to_sym}, {"op": "jump", "prefix": "FUN", "to": to_fun}, {"op": "jump", "prefix": "QTY", "to": to_qty}, {"op": "observe", "m": m, "tests": tier == "thorough" and v < 3}]
             jobs.append(_job(seed, f"sys:{i}:{v}", ENV0, ops))
@@ -322,7 +331,29 @@ def child_run(job: dict) -> dict:
         kind = op["op"]
         steps += 1
         outcome = ""
-        if kind == "import":
+        if op.get("thread") and kind in ("import", "create"):
+            # the same op, executed in another (joined) thread of this process
+            import threading  # pylint: disable=import-outside-toplevel
+            box = {}
+
+            def work(op=op):
+                if op["op"] == "import":
+                    box["r"] = observe.try_import(op["m"])
+                else:
+                    _create(op["kind"], int(op["k"]))
+
+            th = threading.Thread(target=work)
+            was = op.get("m") in sys.modules
+            th.start()
+            th.join()
+            faults["other_thread"] = faults.get("other_thread", 0) + 1
+            if kind == "import":
+                outcome = (box.get("r") or (None, "thread died"))[1] or "ok"
+                if not was:
+                    faults["import_before"] += 1
+            else:
+                faults["create"] += 1
+        elif kind == "import":
             was = op["m"] in sys.modules
             counters = dict(ids)
             _mod, err = observe.try_import(op["m"])
